@@ -254,7 +254,7 @@ func f64Bound(r *rng) float64 {
 	case 8:
 		return float64(int64(r.next()) >> uint(r.intn(64)))
 	case 9:
-		return math.Float64frombits(r.next() &^ (0x7ff << 52) | uint64(r.intn(2047))<<52) // any finite exponent
+		return math.Float64frombits(r.next()&^(0x7ff<<52) | uint64(r.intn(2047))<<52) // any finite exponent
 	case 10:
 		return 0x1p-1022 // smallest normal
 	case 11:
@@ -727,6 +727,7 @@ type mkRec struct {
 	Z struct{}
 	R [2]uint16
 }
+
 // mkTree is deliberately sub-critical (one recursive pointer): with two, as in rapid's own
 // ExampleMake_tree, the expected size of a PRNG-generated value is infinite and some seeds
 // exhaust memory - an observation about critical recursive types, not something C03 judges.
